@@ -8,8 +8,9 @@ from vk.specs import universe as U
 from vk.specs import dyn as Dn
 from props.C09 import METHODS, bound_for, prepare, evolve, solver_bound
 
-LEVEL = "exploration"
-TECHNIQUE = ("runtime contracts against dense matrix exponentials / Gibbs averages: imaginary-time branch of every scheme (theorem-derived bounds as C09), "
+LEVEL = "other"
+TECHNIQUE = ("Engine S (kernel-stub mode): for imaginary time steps one step of every propagation-and-compression scheme equals the stage polynomial in (-tau H) applied to the "
+             "state / density operator, for all tensor values; runtime contracts against dense matrix exponentials / Gibbs averages: imaginary-time branch of every scheme (theorem-derived bounds as C09), "
              "closed-form local propagator incl. shift and phase bookkeeping, purified maximally entangled states, thermal propagation (bounded stand-in)")
 
 
@@ -240,6 +241,8 @@ def check(run):
                 for scheme in (2, 4):
                     cases.append(("thermal", 2, scheme, method, beta, s, run.tier))
     run_cases(run, worker, cases)
+    from props import C09_sym
+    C09_sym.prove(run, dts=(-0.0625j, -0.25j), key="C10")
     run.rule = ("(a) imaginary-time branch of the 8 schemes x solvers x |H|tau in {0.1,0.5} vs normalised expm(-tau H)psi; (b) exact_propagator for Holstein models "
                 "(1-2 molecules, distinct and degenerate mode frequencies with different displacements, 1-2 modes per molecule, schemes 2 and 4, spaces GS/EX, real/imaginary/complex x, shift 0 and 0.37) vs dense expm; Mps/MpDm.evolve_exact with zero and non-zero "
                 "offset incl. frame; (c) ThermalProp from max_entangled_ex/gs for beta over two decades, 3-5 schemes: energy, electronic and phonon occupations vs dense "
